@@ -115,6 +115,9 @@ pub fn scenario(prop: &'static str, seed: u64, idx: u64) -> Scenario {
     if idx % 2 == 1 {
         sc.tree.mtime_mode = 7;
     }
+    if idx % 4 >= 2 {
+        sc.tree.meta_mode = 1 + ((idx / 4) % 3) as u8;
+    }
     let hs = headers(prop != "C02");
     let ms = methods(prop);
     let i = idx as usize;
